@@ -187,7 +187,13 @@ def hist_dyn(rnd, sid, steps):
             ops.append({"op": "set", "p": o + ".k", "v": bits(rnd.randrange(4), 2)})
         elif r < 0.45 and "h1" in alive:
             inl = rnd.choice([[E(DYN("s", "d1"))], [E(DYN("", "hd"))], [E(B("or", DYN("s", "d2"), DYN("", "hd")))],
-                              [E(DYN("ol[1]", "d1"))], [E(DYN("ol[0]", "d2")), E(DYN("s", "d3"))]])
+                              [E(DYN("ol[1]", "d1"))], [E(DYN("ol[0]", "d2")), E(DYN("s", "d3"))],
+                              # inside an inline foreach: the dynamic block of EACH element, selected by the index
+                              [{"k": "foreach", "l": "ol", "v": "j", "it": False, "idx": True,
+                                "body": [E({"k": "dyni", "l": "ol", "i": {"k": "ix", "v": "j"}, "b": "d3"})]}],
+                              [{"k": "foreach", "l": "ol", "v": "j", "it": False, "idx": True,
+                                "body": [{"k": "imp", "c": B("eq", {"k": "ix", "v": "j"}, lit(1)),
+                                          "body": [E({"k": "dyni", "l": "ol", "i": {"k": "ix", "v": "j"}, "b": "d1"})]}]}]])
             ops.append({"op": "call", "call": wcall(inl, "h1")})
             ops.append({"op": "probe", "call": wcall(inl, "h1"), "mode": "around", "nsol": 3, "cap": 100,
                         "paths": ["h1.y"] + ["h1." + p for p in ("s.a", "s.b", "ol[0].a", "ol[0].b", "ol[1].a", "ol[1].b")]})
